@@ -52,6 +52,7 @@ Print Assumptions C12_example_deliverable.
    number of lines (pieces free of quotes, '!', '&' and ';'; any blanks around the ampersands; comment
    and empty lines between the lines of the statement, delivered right after it), lines holding
    several statements separated by ';' (each its own item, all with the line's number),
+   one-line statements with a trailing comment (delivered right after the statement, flagged in-line),
    full-line comments with any indentation and empty lines -- any number of them in any order -- is
    delivered by the reader as exactly one item per statement, in source order, each with the exact
    numbers of its first and last physical line, label and construct name split off; comments and
@@ -82,25 +83,28 @@ Print Assumptions C12_rest_of_file_each_statement_once_in_order_partial.
 Definition ex_file : list lay :=
   [LCont (s2t " 10 nm: x = a +&") (Some 10%N) (Some (s2t "nm")) (s2t "x = a +") [(s2t "   ", s2t " b *")] (s2t "  ") (s2t " c");
    LCom (s2t "  ") (s2t " note"); LBlank;
+   LOneC (s2t "  z = 2 ! set z") None None (s2t "  z = 2 ") (s2t " set z");
    LContC (s2t "y = f(&") None None (s2t "y = f(") [CCom (s2t "   ! inside"); CMid (s2t " ") (s2t "1, "); CBlank] (s2t "") (s2t "2)");
    LSemi (s2t "20 a = 1; b = 2 ;c = 3") (Some 20%N) None (s2t "a = 1") [s2t " b = 2 "; s2t "c = 3"]
          [(s2t "b = 2", None, None); (s2t "c = 3", None, None)];
    LOne (s2t "  call s(1, 2)") None None (s2t "  call s(1, 2)")].
 Example C12_example_whole_file : Forall good ex_file /\
-  flat_map phys ex_file = [s2t " 10 nm: x = a +&"; s2t "   & b *&"; s2t "  & c"; s2t "  ! note"; [];
+  flat_map phys ex_file = [s2t " 10 nm: x = a +&"; s2t "   & b *&"; s2t "  & c"; s2t "  ! note"; []; s2t "  z = 2 ! set z";
                            s2t "y = f(&"; s2t "   ! inside"; s2t " &1, &"; []; s2t "&2)";
                            s2t "20 a = 1; b = 2 ;c = 3"; s2t "  call s(1, 2)"] /\
   items false ex_file 0 = [RLine (s2t "x = a + b * c") (Some 10%N) (Some (s2t "nm")) 1 3;
                            RComment (s2t "! note") 4 4 false; RComment [] 5 5 false;
-                           RLine (s2t "y = f(1, 2)") None None 6 10; RComment (s2t "! inside") 7 7 false;
-                           RLine (s2t "a = 1") (Some 20%N) None 11 11; RLine (s2t "b = 2") None None 11 11;
-                           RLine (s2t "c = 3") None None 11 11;
-                           RLine (s2t "call s(1, 2)") None None 12 12] /\
+                           RLine (s2t "z = 2") None None 6 6; RComment (s2t "! set z") 6 6 true;
+                           RLine (s2t "y = f(1, 2)") None None 7 11; RComment (s2t "! inside") 8 8 false;
+                           RLine (s2t "a = 1") (Some 20%N) None 12 12; RLine (s2t "b = 2") None None 12 12;
+                           RLine (s2t "c = 3") None None 12 12;
+                           RLine (s2t "call s(1, 2)") None None 13 13] /\
   items true ex_file 0 = [RLine (s2t "x = a + b * c") (Some 10%N) (Some (s2t "nm")) 1 3;
-                          RLine (s2t "y = f(1, 2)") None None 6 10;
-                          RLine (s2t "a = 1") (Some 20%N) None 11 11; RLine (s2t "b = 2") None None 11 11;
-                          RLine (s2t "c = 3") None None 11 11;
-                          RLine (s2t "call s(1, 2)") None None 12 12] /\
+                          RLine (s2t "z = 2") None None 6 6;
+                          RLine (s2t "y = f(1, 2)") None None 7 11;
+                          RLine (s2t "a = 1") (Some 20%N) None 12 12; RLine (s2t "b = 2") None None 12 12;
+                          RLine (s2t "c = 3") None None 12 12;
+                          RLine (s2t "call s(1, 2)") None None 13 13] /\
   read_source (flat_map phys ex_file) true false false = items false ex_file 0.
 Proof.
   split; [|split; [|split; [|split]]].
